@@ -1,5 +1,6 @@
 """C15 Every block configuration used or offered is valid for the hardware."""
 import ast
+import re
 import itertools
 
 from ..absint import AList, AObj, Cond, EnumMember, Interp, Unknown
@@ -95,6 +96,9 @@ def run(repo, rep):
     rule_conv1d_halving(repo, rep)
     rep.clause("C15-n", "the SHRAM layout registers are programmed under the conditions the layout was computed under: IB_END / AB_START / ACC_FORMAT always, IFM2_IB_START exactly when has_ifm2")
     rule_shram_register_guards(repo, rep)
+    rep.clause("C15-p", "a shape object built for one operand takes all its components from that operand (operand stems of Block / Shape4D constructions)")
+    rep.clause("C15-q", "the IFM2 partition is dropped only for a true scalar operand: _ew_usage interpreted on four points, further arguments unknown")
+    rule_round11(repo, rep)
     rep.clause("C15-h", "the emitted block configuration is the one of the applied schedule (apply_schedule stores it in every pass)")
     rep.clause("C15-i", "IFM block depth per IFM precision (function interpreted): only 16-bit IFMs use the 16-deep block")
     rep.clause("C15-j", "parameter-named positional arguments of the block configuration search sit at their parameter's position")
@@ -908,3 +912,57 @@ def rule_shram_register_guards(repo, rep):
         rep.check(sorted(seen[reg]) == sorted(w), "C15-n", site, f"{reg} is emitted under {w or 'no condition'}",
                   f"emitted under {seen[reg]}: when the extra condition fails the register keeps its reset value or the previous operation's value while the layout still reserves the partition "
                   "(a 1x1x1 IFM2 in memory: IFM2_IB_START unordered / overlapping)")
+
+
+def rule_round11(repo, rep):
+    """(p) a shape object built for one operand takes all its components from that operand: `<x>_shape = Block(..)` / `Shape4D(..)` whose
+    arguments read `npu_op.<y>.shape.*` uses y == x for every component (the query handed try_block_config an OFM shape with the IFM's
+    height: the one-row accumulator optimisation was applied to a two-row OFM).
+    (q) the IFM2 partition of the SHRAM is dropped only for a true scalar operand: _ew_usage (interpreted, unknown further arguments fork)
+    returns Scalar only with uses_scalar, Full for every other elementwise operation, No otherwise."""
+    n = 0
+    for m in repo.core_modules():
+        for q, fn in m.functions.items():
+            for st in ast.walk(fn):
+                if not (isinstance(st, ast.Assign) and isinstance(st.targets[0], ast.Name) and isinstance(st.value, ast.Call) and (call_name(st.value) or "").split(".")[-1] in ("Block", "Shape4D", "NpuShape3D")):
+                    continue
+                mt = re.match(r"^(ifm2|ifm|ofm)_(shape|block)$", st.targets[0].id)
+                if not mt:
+                    continue
+                stems = set()
+                for a in ast.walk(st.value):
+                    if isinstance(a, ast.Attribute) and a.attr in ("ifm", "ifm2", "ofm") and isinstance(a.value, ast.Name):
+                        stems.add(a.attr)
+                if not stems:
+                    continue
+                n += 1
+                rep.check(stems == {mt.group(1)}, "C15-p", f"{m.rel}:{q}", f"`{str(norm(st))[:90]}` takes every component from the {mt.group(1).upper()}",
+                          f"components come from {sorted(stems)}: the shape handed on as the {mt.group(1).upper()}'s is a mixture (OFM with the IFM's height: blocks that cannot be double-buffered are offered and the generator rejects them)")
+    if n < 3:
+        raise AnalysisError(f"operand shape constructions: {n} found")
+    from ..absint import AObj, EnumMember, Interp
+
+    aa = repo.mod("architecture_allocator")
+    ops_mod = repo.mod("operation")
+    cls = ops_mod.cls("NpuBlockType")
+    fn = aa.func("_ew_usage")
+    site = "ethosu/vela/architecture_allocator.py:_ew_usage"
+    it = Interp(repo, aa)
+    from ..astutil import enum_members as _em
+
+    ew_names = {v_: k_ for k_, v_ in _em(aa.cls("ElementwiseUsage")).items() if isinstance(v_, int)}
+    extra = len(fn.args.args) - 2
+    m_ = 0
+    for mem, scalar, want in (("ElementWise", True, "Scalar"), ("ElementWise", False, "Full"), ("Pooling", False, "No"), ("ConvolutionMxN", True, "No")):
+        em = EnumMember(ops_mod, cls, mem, None)
+        ps = [p for p in it.run("_ew_usage", lambda em=em, scalar=scalar: ([em, scalar] + [AObj(f"extra{i}") for i in range(extra)], {})) if p.kind == "return"]
+        if not ps:
+            raise AnalysisError("_ew_usage: no returning path")
+        for p in ps:
+            m_ += 1
+            got = str(getattr(p.value, "name", p.value)).split(".")[-1]
+            got = ew_names.get(p.value, got) if isinstance(p.value, int) else got
+            rep.check(got == want, "C15-q", site, f"_ew_usage({mem}, uses_scalar={scalar}) = {want}" + (f" on the path {p.decisions}" if p.decisions else ""),
+                      f"returns {got}: an elementwise operation whose IFM2 is a feature map (1x1xC) is laid out without an IFM2 partition - IFM2_IB_START .. IFM_IB_END smaller than the double-buffered block")
+    if m_ < 4:
+        raise AnalysisError("_ew_usage: grid not evaluated")
